@@ -59,6 +59,15 @@ func (c *AttrCache) ConfigureNegativeCaching(enable bool, ttl time.Duration) {
 	if ttl > 0 {
 		c.negativeTTL = ttl
 	}
+	if !enable {
+		// negative entries exist only while negative caching is enabled
+		for p, cached := range c.cache {
+			if cached.isNegative {
+				c.removeFromAccessLog(p)
+				delete(c.cache, p)
+			}
+		}
+	}
 }
 
 // Get retrieves cached attributes if they exist and are not expired.
